@@ -6,6 +6,7 @@ import (
 	"fmt"
 	"os"
 	"os/signal"
+	"runtime/debug"
 	"sync"
 	"syscall"
 	"time"
@@ -140,6 +141,9 @@ func offsetsToTry(c *ctx, total int, dense bool) []int {
 
 func checkC17(c *ctx) {
 	c.Rule = "fault enumeration: (A) WriteTo into a writer that accepts exactly k bytes, for EVERY k in [0, length] of each input (quick tier: images above 6000 bytes use the head / footer / flush-boundary / stride offsets), plus transient failures: exactly the n-th write call fails for every n, and destinations rejecting writes above a size; (B) Persist with the process file-size limit (RLIMIT_FSIZE, SIGXFSZ ignored) set to k: every k in the first 64 bytes, the last 80 bytes (footer), around every 4096-byte flush boundary and a stride over the rest; (C) Merge with the merge buffer shrunk to 16-100 bytes and the file-size limit set to k (quick: the footer region, the head and a stride; thorough: every k); plus the no-fault runs; outcome class (error?, bytes accepted) compared with the extracted buffered-writer model (IO.v) fed with the recorded write sizes; after an error the path must not exist; after success the file is decoded by the extracted parser and compared with the spec; non-trivial = a fault offset strictly inside the output"
+	// garbage collector off: what failed operations leave in sync.Pools stays there for the later ones
+	oldGC := debug.SetGCPercent(-1)
+	defer debug.SetGCPercent(oldGC)
 	c.Assumptions = append(c.Assumptions, "fsync/close failures are modelled but cannot be injected portably; a write beyond the limit is cut short and fails (what the kernel does under RLIMIT_FSIZE and what the failing writer does)")
 	savedBuf := zap.DefaultFileMergerBufferSize
 	defer func() { zap.DefaultFileMergerBufferSize = savedBuf }()
@@ -372,6 +376,53 @@ func checkC17(c *ctx) {
 			if bad != "" {
 				c.Violation(fmt.Sprintf("C17 Merge (buffer %d bytes) with the file-size limit at %d of %d bytes\n%s\n%s", bufSize, k, len(good), bad, clip(mc.describe())), false)
 				return
+			}
+		}
+		// after all those failed merges: merges running side by side must each be complete (whatever
+		// the failed ones handed back to shared pools must not be handed out twice)
+		{
+			var wg sync.WaitGroup
+			outs := make([]string, 8)
+			for j := range outs {
+				wg.Add(1)
+				go func(j int) {
+					defer wg.Done()
+					defer func() {
+						if r := recover(); r != nil {
+							outs[j] = fmt.Sprintf("using its output panics: %v", r)
+						}
+					}()
+					p := zh.TmpPath(fmt.Sprintf("c17c%d", j))
+					defer os.Remove(p)
+					_, _, err := zap.VerifMerge([]segment.Segment{e1.seg, e2.seg}, mc.bitmaps(), p, mc.mode, nil, nil)
+					if err != nil {
+						outs[j] = "error " + err.Error()
+						return
+					}
+					s, err := zh.Plugin.Open(p)
+					if err != nil {
+						outs[j] = "the output cannot be opened: " + err.Error()
+						return
+					}
+					defer s.Close()
+					cont, err := zh.Dump(s)
+					if err != nil {
+						outs[j] = "the output cannot be read: " + err.Error()
+						return
+					}
+					cont.NormalizeMerged()
+					if d := partsDiffer(cont.Sx(), mspec, allParts); len(d) > 0 {
+						outs[j] = "the output differs from the merged content in " + fmt.Sprint(d)
+					}
+				}(j)
+			}
+			wg.Wait()
+			c.Count("concurrent_merges_after_faults")
+			for j, o := range outs {
+				if o != "" {
+					c.Violation(fmt.Sprintf("C17 eight merges of the same inputs running side by side after the fault sweep (no fault injected now): merge %d reported success but %s\n%s", j, o, clip(mc.describe())), false)
+					return
+				}
 			}
 		}
 		zap.DefaultFileMergerBufferSize = savedBuf
